@@ -1233,8 +1233,9 @@ class XmlFormatter(Formatter):
             )
         ).toprettyxml(indent=indent)
         if self.omit_prefix:
-            query = f"({'|'.join(f'{s}:' for s in prefixes)})"
-            s = re.sub(query, "", s)
+            # strip the namespace prefix from element tags only (not from text content or attribute values)
+            query = f"(</?)({'|'.join(re.escape(prefix) for prefix in prefixes)}):"
+            s = re.sub(query, r"\1", s)
 
         return s
 
